@@ -20,6 +20,7 @@ import (
 type Scenario struct {
 	Prog     *gen.ImportProg `json:"prog"`
 	Contexts int             `json:"contexts"`
+	AsScript bool            `json:"as_script,omitempty"` // the main program is run as the code of a new module __main__ (py.RunCode with no module), not inside a prepared main module
 	Shared   bool            `json:"shared,omitempty"` // the contexts execute ONE code object of the main program (compiled once by the embedder)
 	Order    simrt.MapOrder  `json:"order"`
 	SSeed    uint64          `json:"sseed"`
@@ -48,6 +49,7 @@ func (Engine) Gen(seed uint64, idx int, tier string) interface{} {
 		sc.Contexts = 2 + r.Intn(2) // (files that appear at run time would be seen by both contexts: single context only)
 		sc.Shared = r.Chance(1, 2)
 	}
+	sc.AsScript = r.Chance(1, 3)
 	return sc
 }
 
@@ -115,7 +117,7 @@ func (Engine) Shrink(sci interface{}) []interface{} {
 		out = append(out, &c)
 	}
 	for _, p := range gen.ShrinkImport(sc.Prog) {
-		out = append(out, &Scenario{Prog: p, Contexts: sc.Contexts, Shared: sc.Shared, Order: sc.Order, SSeed: sc.SSeed, PNum: sc.PNum})
+		out = append(out, &Scenario{Prog: p, Contexts: sc.Contexts, Shared: sc.Shared, AsScript: sc.AsScript, Order: sc.Order, SSeed: sc.SSeed, PNum: sc.PNum})
 	}
 	return out
 }
@@ -224,7 +226,32 @@ func (Engine) Exec(sci interface{}, opt harness.ExecOpts) *harness.Outcome {
 			}
 			defer s.Close()
 			defer func() { results[c].trace = s.Trace }()
-			results[c].exc = runProg(s, sharedMain, mainSrc, "<main>")
+			if sc.AsScript {
+				// the main program runs the way a script does: as the code of a new
+				// module __main__ (py.RunCode / RunFile -> ModuleInit)
+				func() {
+					defer func() {
+						if r := recover(); r != nil {
+							results[c].exc = "PANIC: " + fmt.Sprint(r)
+						}
+					}()
+					code := sharedMain
+					if code == nil {
+						var err error
+						if code, err = py.Compile(mainSrc, "<main>", py.ExecMode, 0, true); err != nil {
+							results[c].exc = "COMPILE:" + pyhost.ExcClass(err)
+							return
+						}
+					}
+					_, err := py.RunCode(s.Ctx, code, "<main>", nil)
+					results[c].exc = pyhost.ExcClass(err)
+					if m, e := s.Ctx.Store().GetModule("__main__"); e == nil {
+						s.Main = m
+					}
+				}()
+			} else {
+				results[c].exc = runProg(s, sharedMain, mainSrc, "<main>")
+			}
 			s.Trace = append(s.Trace, "\"--after--\"")
 			results[c].exc2 = runProg(s, sharedAfter, afterSrc, "<after>")
 		})
